@@ -1,10 +1,6 @@
-import Foundation.Model.Nonce
+import Foundation.Lemmas.NonceList
 open GoSort
 namespace Nonce
-
-/-- Spec: accepted iff well-formed, never accepted before, and not older than any accepted nonce by more than ttl. -/
-def Accepts (ttl : Nat) (acc : List Nat) (n : Nat) : Prop :=
-  is13 n = true ∧ n ∉ acc ∧ ∀ m ∈ acc, m ≤ n + ttl
 
 structure Inv (ttl : Nat) (acc W : List Nat) : Prop where
   sorted : Sorted W
